@@ -3,6 +3,7 @@ package crypto
 import (
 	"context"
 	"crypto/rand"
+	"encoding/binary"
 	"fmt"
 	"github.com/allegro/bigcache/v3"
 	oasisEd25519 "github.com/oasisprotocol/curve25519-voi/primitives/ed25519"
@@ -196,22 +197,21 @@ func (b *BatchVerifier) verifyAll(idx int) (badIndices []int) {
 	return
 }
 
-// Key() returns a unique string key for the cache
+// Key() returns a unique string key for the cache: the three parts are length-framed, so that no other (key, message, signature)
+// triple maps to the same bytes (an unframed concatenation let (pk, msg || sig[:k], sig[k:]) hit the entry of (pk, msg, sig))
 func (bt *BatchTuple) Key() string {
 	// get the public key bytes
 	pk := bt.PublicKey.Bytes()
-	// calculate the total length of the key
-	totalLen := len(pk) + len(bt.Message) + len(bt.Signature)
-	// create the buffer and offset variables
-	b, offset := make([]byte, totalLen), 0
-	// copy pubkey in first part
-	copy(b[offset:], pk)
-	offset += len(pk)
-	// copy message in second part
-	copy(b[offset:], bt.Message)
-	offset += len(bt.Message)
-	// copy signature in third part
-	copy(b[offset:], bt.Signature)
+	// create the buffer
+	b := make([]byte, 0, 16+len(pk)+len(bt.Message)+len(bt.Signature))
+	// length of the public key, then the public key
+	b = binary.BigEndian.AppendUint64(b, uint64(len(pk)))
+	b = append(b, pk...)
+	// length of the message, then the message
+	b = binary.BigEndian.AppendUint64(b, uint64(len(bt.Message)))
+	b = append(b, bt.Message...)
+	// the signature is what is left
+	b = append(b, bt.Signature...)
 	// return string version
 	return string(b)
 }
